@@ -432,6 +432,7 @@ static char *_GD_SetScalar(DIRFILE *restrict D,
     if (i == -1) { /* assume it's a field name */
       ptr = _GD_ScalarCode(D, p, me, token, index);
       if (D->error) {
+        free(ptr);
         dreturn("%p", NULL);
         return NULL;
       }
@@ -465,6 +466,7 @@ static char *_GD_SetScalar(DIRFILE *restrict D,
     } else if (i == -1) { /* assume it's a field name */
       ptr = _GD_ScalarCode(D, p, me, token, index);
       if (D->error) {
+        free(ptr);
         dreturn("%p", NULL);
         return NULL;
       }
@@ -492,6 +494,7 @@ static char *_GD_SetScalar(DIRFILE *restrict D,
     } else if (i == -1) { /* assume it's a field name */
       ptr = _GD_ScalarCode(D, p, me, token, index);
       if (D->error) {
+        free(ptr);
         dreturn("%p", NULL);
         return NULL;
       }
@@ -522,6 +525,7 @@ static char *_GD_SetScalar(DIRFILE *restrict D,
     } else if (i == -1) { /* assume it's a field name */
       ptr = _GD_ScalarCode(D, p, me, token, index);
       if (D->error) {
+        free(ptr);
         dreturn("%p", NULL);
         return NULL;
       }
@@ -1452,6 +1456,13 @@ static gd_entry_t *_GD_ParseArray(DIRFILE *restrict D, int string,
       } else {
         ptr = _GD_SetScalar(D, p, in_cols[c], (char *)data + s * n++, t, me,
             &offset, NULL);
+
+        if (D->error) { /* a malformed literal */
+          free(data);
+          _GD_FreeE(D, E, 1);
+          dreturn("%p", NULL);
+          return NULL;
+        }
 
         if (ptr) {
           free(ptr);
